@@ -256,6 +256,7 @@ InstMethods(c) ==
     [] c = "UCont"  -> {"__contains__"}
     [] c = "URev"   -> {"__iter__", "__reversed__"}
     [] c = "UItor"  -> {"__iter__", "__next__"}
+    [] c = "USizedIter" -> {"__iter__", "__next__", "__len__"}
     [] c = "bool"   -> {"__and__", "__or__", "__xor__", "__sub__"} \cup CmpG       \* no start label among them
     [] c = "NoneType" -> CmpG
     [] OTHER -> {}
@@ -264,7 +265,7 @@ MetaMethods(c) == IF c = "E" THEN {"__contains__", "__getitem__", "__iter__", "_
 MethodsOf(c) == InstMethods(c) \cup (IF RC_MetaDunder THEN MetaMethods(c) ELSE {})
 \* classes for which the tables above are claimed (checked against the real classes by the driver)
 AbcPathCls == {"USeq", "DSeq", "UColl", "UMap", "UIter", "gen", "dict_items", "odict_items", "range", "USet", "USetNe",
-               "UMSeq", "UMMap", "UMapNe", "DMap", "mappingproxy", "USized", "UCont", "URev", "UItor", "E", "A", "B",
+               "UMSeq", "UMMap", "UMapNe", "DMap", "mappingproxy", "USized", "UCont", "URev", "UItor", "USizedIter", "E", "A", "B",
                "object", "bool", "NoneType"}
 
 \* the automaton's path per class, evaluated once
